@@ -403,8 +403,6 @@ SITE_TABLE = [
     ('rsbdd::stats', 'expect', 'R9: min/max of a non-empty vector (same guard `repeat > 0` at the only call chain)'),
     ('rsbdd::plot_performance_results', 'expect', 'stdin handle exists because Stdio::piped() is set on the same builder before spawn (std contract)'),
     ('rsbdd::print_header', 'Overflow(Add', 'R6: string lengths / column widths (<= isize::MAX) plus constants <= 2'),
-    ('rsbdd::<bdd_io::BDDGraph as bdd_io::dot::Labeller>::node_id::{closure#0}', 'panic', 'dot::Id::new on `n_{:p}`: the rendered pointer consists of [0-9a-fx] only'),
-    ('rsbdd::<parser_io::SymbolicParseTree as bdd_io::dot::Labeller>::node_id::{closure#0}', 'panic', 'dot::Id::new on `n_{usize}`: digits only'),
     ('rsbdd::<parser_io::SymbolicParseTree as bdd_io::dot::Labeller>::node_label', 'Index on std::vec::Vec', 'n comes from nodes() = 0..self.nodes.len() through the dot callback (dot crate contract)'),
     ('rsbdd::<bdd_io::BDDGraph as bdd_io::dot::Labeller>::node_id', 'expect', 'R8: dot::Id::new on the constants "n_true" / "n_false" (identifier characters only; built through to_string)'),
 ]
@@ -504,7 +502,48 @@ def r9_guard(F):
 
 R9_STATE = [None]
 
+def id_format_reason(s, F):
+    """R13 (decided): the panic behind `dot::Id::new(format!(..)).unwrap_or_else(|_| panic!(..))` in a node_id callback is dead when every id
+    the format can produce is a dot identifier ([A-Za-z_][A-Za-z0-9_]*): the literal pieces consist of identifier characters, the text
+    starts with a letter or `_`, and every hole renders a pointer (`{:p}`: 0x + hex digits) or an integer - not a variable name or
+    any other text the user controls"""
+    import re as _re
+    base = s.fn.split('::{closure')[0]
+    if not base.endswith('Labeller>::node_id') or F is None: return None
+    t = None
+    for c in F.crates:
+        t = getattr(c, 'ithir', c.thir).get(base) or t
+    if t is None: return None
+    news = [e for e in walk(t['body']) if e['k'] == 'Call' and (callee_name(e) or '').endswith('dot::Id::new')]
+    formatted = 0
+    for e in news:
+        tm = [x for x in walk(e) if x['k'] == 'Literal' and x.get('lit') == 'ByteStr']
+        if not tm: continue             # a constant id: rule R8
+        formatted += 1
+        bs = tm[0]['value']; i = 0; pieces = []; holes = 0
+        while i < len(bs):
+            b = bs[i]
+            if b == 0: break
+            if b == 0xC0: holes += 1; pieces.append(None); i += 1; continue
+            if b >= 0x80: return None                      # a format directive with options: not read
+            pieces.append(bytes(bs[i + 1:i + 1 + b]).decode('utf-8', 'replace')); i += 1 + b
+        if not pieces or pieces[0] is None or not _re.fullmatch(r'[A-Za-z_][A-Za-z0-9_]*', pieces[0]): return None
+        if any(p is not None and not _re.fullmatch(r'[A-Za-z0-9_]*', p) for p in pieces): return None
+        wrappers = [x for x in walk(e) if x['k'] == 'Call' and (callee_name(x) or '').split('::')[-1] in ('new_pointer', 'new_display', 'new_debug', 'new_lower_hex', 'new_upper_hex', 'new_octal', 'new_binary', 'new_lower_exp', 'new_upper_exp') and 'Argument' in (callee_name(x) or '')]
+        if len(wrappers) != holes: return None
+        for w in wrappers:
+            kind = (callee_name(w) or '').split('::')[-1]
+            if kind == 'new_pointer': continue
+            ty = w['args'][0]['ty']
+            while ty.get('k') == 'Ref': ty = ty['to']
+            if kind in ('new_display', 'new_lower_hex', 'new_upper_hex') and ty.get('k') == 'Uint': continue
+            return None
+    if not formatted: return None
+    return 'R13: every id the format can produce is a dot identifier (identifier characters around pointer / unsigned-integer holes only)'
+
 def site_table_reason(s, F=None):
+    r13 = id_format_reason(s, F) if s.what.startswith('panic') else None
+    if r13: return r13
     if s.fn == 'rsbdd::stats' and s.what.startswith(('Index', 'expect', 'BoundsCheck')):
         if F is None: return None
         if R9_STATE[0] is None or R9_STATE[0][0] is not F:
